@@ -107,7 +107,9 @@ pub fn plan(id: &str, tier: &str, seed: u64, round: u64) -> Plan {
     let mut p = plan_inner(id, tier, seed, round);
     if !matches!(id, "C07") {
         for (i, s) in p.specs.iter_mut().enumerate() {
-            if i % 5 == 2 {
+            // (two fifths where identifiers and literals are not what the property is about)
+            let more = matches!(id, "C04" | "C05" | "C06" | "C08" | "C09" | "C10" | "C13" | "C14" | "C15");
+            if i % 5 == 2 || (more && i % 5 == 4) {
                 gen::plainify(s);
             }
         }
@@ -508,6 +510,8 @@ fn plan_inner(id: &str, tier: &str, seed: u64, round: u64) -> Plan {
             let n = if thorough { 640 } else { 384 };
             let mut cfg = string_cfg(id);
             cfg.derives = derives(&[if id == "C14" { "EnumMessage" } else { "EnumProperty" }]);
+            // a prefix is a print-side feature: get_serializations lists what the parser accepts
+            cfg.allow_prefix = true;
             cfg.allow_default = false;
             cfg.allow_default_with = false;
             cfg.min_variants = 1;
